@@ -1370,7 +1370,7 @@ class Interp:
         def opaque(ty, depth=0):
             k = ty.get('k')
             if k == 'tuple':
-                return all(opaque(t, depth + 1) for t in ty['elems'])
+                return bool(ty['elems']) and all(opaque(t, depth + 1) for t in ty['elems'])
             if k == 'adt':
                 p = ty['path']
                 if p in OBJ_TYPES:
